@@ -363,6 +363,7 @@ func (c *Ctx) ruleR08c(rule string) {
 	for _, fn := range cbs {
 		name := c.name(fn)
 		lf := lin.New(fn, func(string) bool { return true })
+		lf.Sub = func(g *ssa.Function) *lin.Fn { return c.linFn(g) }
 		b := fn.Params[0]
 		lf.Axioms = append(lf.Axioms, lin.Ge(lf.LenOf(b), lin.Const(1), "Readf calls the callback only with a non-empty remainder (cur < File.len)"))
 		lf.Prepare()
